@@ -28,6 +28,7 @@ RULE = ("One evaluation = one seeded execution of two real clients (real "
         "reconnect faults. Non-trivial: both PAKE messages were delivered. "
         "Distinct: event-log digests among non-trivial runs.")
 RULE += (' Application messages include the empty string, a NUL byte and 3 kB blobs.')
+RULE += (' One relation spells the nameplate number differently (leading zero, digits of another script).')
 RULE += (' Codes also come with a doubled hyphen, a trailing hyphen or one word only; one relation adds a hyphen.')
 LEVEL_TEXT = ("Seeded exploration of inputs x schedules. match := NFC(codeA)=="
               "NFC(codeB) and appidA==appidB (computed independently of the "
@@ -51,7 +52,7 @@ WORDS = ("café", "naïve", "가나", "q̣̇x", "alpha",
 PURPOSES = ("p1", "p2", "transit", "café", "café", "x/y z", "")
 RELATIONS = ("same", "same", "nfd", "nfd_partial", "mark_order", "char",
              "insert", "delete", "case", "nameplate", "compat", "appid",
-             "nfd+appid", "hyphen")
+             "nfd+appid", "hyphen", "np_spelling")
 
 
 def relate(tape, code, relation):
@@ -96,6 +97,14 @@ def relate(tape, code, relation):
         return np + "-" + sw
     if relation == "nameplate":
         return str(int(np) + 1) + "-" + rest
+    if relation == "np_spelling":
+        # the same number spelled differently: a leading zero, or digits of
+        # another script (validate_nameplate's \d accepts them). Different
+        # codes all the same: no agreement
+        if tape.choose(2, "nps") == 0:
+            return "0" * (1 + tape.choose(2, "npz")) + np + "-" + rest
+        zero = tape.pick((0x0660, 0xFF10, 0x0966), "npd")
+        return "".join(chr(zero + int(ch)) for ch in np) + "-" + rest
     if relation == "compat":
         return np + "-" + rest.replace("fi", "ﬁ").replace(
             "a", "ａ", 1)
